@@ -28,6 +28,9 @@ def run(chk):
     chk.rule("krylov-hermitian", "operand of expm_krylov is a real multiple of a Hermitian operator for every time mode", 3)
     krylov_rule(chk, src, "krylov-hermitian", [TEVO])
     TR.decomposition_axes(chk, src, topologies=("generic",))
+    chk.rule("local-step", "evolve_0site / 1site / 2site (abstract runs with recorders, several shapes of the local tensor incl. single numbers): one Krylov exponential of coeff * tau * H_eff of the "
+             "right kind, on the flattened local tensor, with the matrix-vector product in the tensor's shape", 8)
+    TR.local_step_rule(chk, src, "local-step")
     if chk.tier == "thorough":
         TR.heff_networks(chk, src, topologies=("binary", "star", "two"))
 
